@@ -1,7 +1,7 @@
 (* C03/Property.v — property C03 (downloaded log and parameter tables equal the device tables).
    Theorems only; each is closed by `exact <lemma>` and followed by Print Assumptions.
    Model: C03/Model.v (Toc, TocFetcher, element parsers, TOC server, adversary), C03/ExtModel.v. *)
-From CF Require Import Common.Bytes C03.Model C03.ExtModel C03.Proofs C03.Fetch C03.Lookup.
+From CF Require Import Common.Bytes C03.Model C03.ExtModel C03.Proofs C03.Fetch C03.Lookup C03.Live C03.Ext.
 Open Scope Z_scope.
 
 (* Element decoding is the inverse of the firmware's wire encoding: for every entry with NUL-free
@@ -92,22 +92,34 @@ Theorem C03_lookup_absent : forall c items,
 Proof. intros c items. split; [exact (lookup_absent c items)|exact (lookup_id_absent c items)]. Qed.
 Print Assumptions C03_lookup_absent.
 
-(* NOT PROVED (kept visible; the property is therefore claimed as partial): the persistent-marker clause.
-   Over C03/ExtModel.v it reads: for a parameter table with pairwise distinct ids below 2^16 and a device
-   that answers every extended-type query, for every schedule of (duplicated, stale, delayed) answers,
-   the completion callback fires at most once, and when it has fired exactly the extended parameters the
-   device reports as persistent carry the marker, one query having been sent per extended parameter.
-   The model of this phase is tied to the real Param/_ExtendedTypeFetcher on every run and the clause is
-   checked by the oracle on the real code; it is not a theorem. *)
-Definition C03_persistent_marker_statement : Prop :=
-  forall (t : toc) (d : C03.ExtModel.xdev) (evs : list aev),
+(* Liveness: after ANY admissible schedule, answering the latest outstanding request n+1 more times
+   completes the download (the completion callback has then fired exactly once). *)
+Theorem C03_fetch_live : forall c cache ver items raw crc extra evs,
+  raw_items c items = Some raw -> Forall item_ok items -> 0 <= crc < 2 ^ 32 ->
+  Z.of_nat (List.length items) < (if 4 <=? ver then 65536 else 256) ->
+  admissible evs ->
+  let dv := mkDev raw crc extra in
+  let j0 := (List.length (sends (snd (fetch c cache ver dv evs))) - 1)%nat in
+  finished_count (snd (fetch c cache ver dv (evs ++ map Deliver (seq j0 (S (List.length items)))))) = 1%nat.
+Proof. exact fetch_live. Qed.
+Print Assumptions C03_fetch_live.
+
+(* Persistent markers (extended-type phase of Param.refresh_toc, model C03/ExtModel.v): for a parameter
+   table with pairwise distinct ids below 2^16 and a device that answers every extended-type query, for
+   EVERY schedule of duplicated, stale or delayed answers and packets on other channels: no exception;
+   the completion callback fires at most once; when it has fired, one query was sent per extended
+   parameter (in table order) and exactly the extended parameters whose device answer is 1
+   (EXTENDED_PERSISTENT) carry the marker; nothing else in the table changed. *)
+Theorem C03_persistent_marker : forall (t : toc) (d : xdev) (evs : list aev),
   NoDup (map e_ident (values t)) ->
-  (forall e, In e (values t) -> 0 <= e_ident e < 65536 /\ (e_extended e = true -> exists b, assoc (e_ident e) d = Some b)) ->
-  C03.ExtModel.xadmissible evs ->
-  let '(s, o) := C03.ExtModel.xfetch t d evs in
+  (forall e, In e (values t) ->
+     0 <= e_ident e < 65536 /\ (e_extended e = true -> exists b, assoc (e_ident e) d = Some b)) ->
+  xadmissible evs ->
+  let '(s, o) := xfetch t d evs in
   raised o = [] /\ (finished_count o <= 1)%nat /\
   (finished_count o = 1%nat ->
-     sends o = map C03.ExtModel.ext_req (C03.ExtModel.ext_ids t) /\
-     C03.ExtModel.x_toc s =
-       C03.ExtModel.map_toc (fun e => if e_extended e && match assoc (e_ident e) d with Some 1 => true | _ => false end
-                                      then C03.ExtModel.set_pers e else e) t).
+     sends o = map ext_req (ext_ids t) /\
+     x_toc s = map_toc (fun e => if e_extended e && match assoc (e_ident e) d with Some 1 => true | _ => false end
+                                 then set_pers e else e) t).
+Proof. exact persistent_marker. Qed.
+Print Assumptions C03_persistent_marker.
